@@ -69,6 +69,52 @@ def complete_message(ident, rnd, pattern="random"):
     return None
 
 
+def igs_201_single_layer(rnd, degree_field, order_field):
+    """A complete one-layer 4076_201 payload with the given 4-bit degree / order field values (degree = field + 1): the extreme
+    shapes (degree 16, order >= 11 -> more than 136 cosine coefficients) that random field values rarely produce."""
+    core, g, m, i, _ = refdecode.tables()
+    d = i["4076_201"]
+    DF = core.RTCM_DATA_FIELDS
+    off = 0
+    pos = {}
+    for k, v in d.items():
+        if isinstance(v, tuple):
+            break
+        pos[k] = (off, DF[k][1])
+        off += DF[k][1]
+    if "IDF035" not in pos:
+        return None
+    layer0 = off  # first layer: IDF036 (height), IDF037 (degree), IDF038 (order), then the coefficient groups
+    grp = list(d.values())[-1][1] if isinstance(list(d.values())[-1], tuple) else None
+    if not grp:
+        return None
+    lo = layer0
+    lpos = {}
+    for k, v in grp.items():
+        if isinstance(v, tuple):
+            break
+        lpos[k] = (lo, DF[k][1])
+        lo += DF[k][1]
+    nbits = 8 * 1023
+    bits = [rnd.getrandbits(1) for _ in range(nbits)]
+    hdr = header("4076_201")
+    for j in range(8 * len(hdr)):
+        bits[j] = (hdr[j // 8] >> (7 - j % 8)) & 1
+
+    def put(o, w, val):
+        for j in range(w):
+            bits[o + j] = (val >> (w - 1 - j)) & 1
+    put(*pos["IDF035"], 0)
+    if "IDF037" in lpos and "IDF038" in lpos:
+        put(*lpos["IDF037"], degree_field)
+        put(*lpos["IDF038"], order_field)
+    buf = bytes(sum(bits[8 * k + j] << (7 - j) for j in range(8)) for k in range(nbits // 8))
+    r = refdecode.ref_decode(buf)
+    if r[0] != "ok":
+        return None
+    return buf[:max((r[2] + 7) // 8, len(hdr))]
+
+
 def corpus(seed, per_type=2, patterns=("random", "zeros", "ones")):
     rnd = random.Random(seed)
     for ident in all_identities():
